@@ -61,7 +61,7 @@ func inWindow(k int, wait time.Duration, mustWait bool, overtaken func(), subscr
 // | dset <k> <set> <add|del> <x> | sub <k> <set> <add|del> <x>
 func stressOnUpdate(r *hx.Run, f []string) {
 	desc := strings.Join(f, " ")
-	blockedWait, freeWait := 5*time.Millisecond, 20*time.Second
+	blockedWait, freeWait := 5*time.Millisecond, 3*time.Second
 	// streamed at once (the main goroutine is waiting for the scenario and does not touch r meanwhile)
 	overtaken := func() {
 		r.Fail("onupdate-window", desc+": the writer that changed the input returned while the subscription to this input was between its registration and its initial invocation: "+
